@@ -1,1 +1,7 @@
+import Tfv.Generated
 import Tfv.Model
+import Tfv.Spec.Sub
+import Tfv.Props.C01
+import Tfv.Props.C02
+import Tfv.Props.C14
+import Tfv.Props.C20
